@@ -177,7 +177,15 @@ func VerifH_C01_modes() {
 	}
 	var excl scan.IPContainer
 	if withExcl {
-		excl = &c01Excl{drop: "10.0.0.2"}
+		// the container the commands really use (cidranger behind parseExcludeFile)
+		ex, eerr := parseExcludeFile(func() (io.ReadCloser, error) {
+			return io.NopCloser(strings.NewReader("10.0.0.2\n")), nil
+		})
+		verifAssert(eerr == nil && ex != nil, "well-formed exclusion file refused")
+		excl = ex
+		if ex == nil {
+			excl = &c01Excl{drop: "10.0.0.2"}
+		}
 	}
 	var gen scan.RequestGenerator
 	if generic {
@@ -192,6 +200,9 @@ func VerifH_C01_modes() {
 	r := &scan.Range{Ports: prs}
 	if fileMode == 0 {
 		r.DstSubnet = subnet
+	} else if ndBool("positionalTargetToo") {
+		// a positional subnet may be given together with -f: the targets are still those of the file
+		r.DstSubnet = &net.IPNet{IP: net.IPv4(192, 168, 77, 0).To4(), Mask: net.CIDRMask(24, 32)}
 	}
 	if fileMode == 0 && !hasPorts {
 		verifCover("no-ports-no-file")
